@@ -359,7 +359,14 @@ class Negative(Term):
         return self.term.is_aggregate
 
     def get_sql(self, ctx: SqlContext) -> str:
-        return "-{term}".format(term=self.term.get_sql(ctx))
+        term_sql = self.term.get_sql(ctx)
+        compound = isinstance(self.term, (ArithmeticExpression, Criterion)) and not isinstance(
+            self.term, (Function, Field)
+        )
+        if compound or term_sql.startswith("-"):
+            # -(a+b) is not -a+b, and "--" would start a comment
+            term_sql = "({})".format(term_sql)
+        return "-{term}".format(term=term_sql)
 
 
 class ValueWrapper(Term):
